@@ -1,9 +1,12 @@
-import DeltaModel.Text
+import Proofs.Machine.Claims
 /-!
 C04 — text that is not diff/blame/grep output passes through byte for byte.
-(First instalment: the tab-expansion primitive that decides when a line is unchanged.)
+
+`raw` is the line as received (after `ingest_line`: the harness obtains it from the code); a
+`.raw` row is written to the output exactly as it is.
 -/
 namespace C04
+open Machine Headers Generated
 
 /-- Tab width 0 (the `--color-only` preset) never changes a line. -/
 theorem expand_zero_identity (l : List Char) : Text.expand 0 l = l := by
@@ -23,5 +26,46 @@ theorem expand_no_tab_identity (w : Nat) (l : List Char) (h : '\t' ∉ l) :
       simp [List.flatMap_cons, hc, ih hcs]
 
 example : '\t' ∉ ("abc def".toList) := by decide
+
+/-- `passthrough_exact`. Outside any diff section (state Unknown or CommitMeta; not a plain
+`diff -u` stream) a line that opens no construct is claimed by no handler and is written by
+`emit_line_unchanged`: exactly one new row, at the end of the timeline, carrying the raw line
+unchanged (including any colours it has), and the state stays what it was. -/
+theorem passthrough_exact (cfg : Cfg) (m : M) (l : L)
+    (hst : m.st = .unknown ∨ m.st = .commitMeta) (hsrc : m.source ≠ .diffUnified) (no : NotOpener l) :
+    ∃ m', chain cfg l Generated.handlerOrder m = .ok m' ∧ m'.st = m.st ∧
+      timeline m' = timeline m ++ [{ kind := .raw, text := l.raw, src := m.n }] :=
+  Machine.passthrough_exact cfg m l hst hsrc no
+
+/-- the hypotheses are satisfiable: a coloured commit-message line opens nothing -/
+def exampleLine : L :=
+  { raw := "    \x1b[31mFix\x1b[m the thing".toList, text := "    Fix the thing".toList, graphemes := [],
+    commitRe := false, blame := false, grep := 0, submodule := none }
+
+example : NotOpener exampleLine := by
+  constructor <;> decide
+
+/-- `interleaving`: pass-through rows keep their place relative to rendered rows — a step only
+appends to the timeline, and at the end of the input the output is exactly the timeline. -/
+theorem interleaving {cfg : Cfg} {m m' : M} {l : L} (g : Good m) (e : step cfg m l = .ok m') :
+    ∃ new, timeline m' = timeline m ++ new := (step_spec e g).2.1
+
+theorem output_is_timeline {cfg : Cfg} {ls : List L} {m : M} (e : run cfg ls = .ok m) :
+    timeline m = m.out := (run_spec e).2
+
+/-- `after_hunk_partial`: inside a hunk a line that is not a hunk line takes the `_` arm of
+`handle_hunk_line`: what is written is the raw line with tabs expanded — unchanged iff it has no
+TAB or the tab width is 0 (known finding C04-text-after-hunk-tabs for the other case). -/
+theorem after_hunk_partial (cfg : Cfg) (m m' : M) (l : L) (hn : newLineState m.st l = .ok none)
+    (e : hunkLinePush cfg m l = .ok m') :
+    ∃ r : Row, timeline m' = timeline m ++ [r] ∧ r.kind = .other ∧ r.text = Text.expand cfg.tab l.raw := by
+  unfold hunkLinePush at e
+  simp only [hn] at e
+  cases e
+  refine ⟨{ kind := .other, text := Text.expand cfg.tab l.raw, src := m.n }, ?_, rfl, rfl⟩
+  rw [timeline_of_flushed m]; simp [timeline]
+
+/-- … and the negation of byte-exactness for a line with a TAB, as a concrete witness -/
+example : Text.expand 4 "a\tb".toList ≠ "a\tb".toList := by decide
 
 end C04
